@@ -1,0 +1,10 @@
+//go:build verif
+
+package vivid
+
+import "github.com/kercylan98/minotaur/engine/prc"
+
+// VerifShared is an accessor for the verification harness in /verif (build tag verif only): the
+// network sharing of the actor system (nil when sharing is off), so that the harness can close and
+// re-open the link between two systems and observe the open streams.
+func VerifShared(sys *ActorSystem) *prc.Shared { return sys.shared }
